@@ -202,8 +202,24 @@ Definition render_comp (root dimsp : str) (c : comp) : str :=
   | CTok l => flat_map render_tok l
   end.
 
+(* name of the level directory per directory_layout (second component of location_funcs): tc, mp: level_location
+   ("%02d" % level); tms: level_location_tms = level_location(str(level), ...); arcgis: level_location('L%02d' % z, ...);
+   reverse_tms: None (level clean-ups disabled); quadkey: no_level_location raises *)
+Definition level_name (layout : string) (level : Z) : option str :=
+  if (String.eqb layout "tc" || String.eqb layout "mp")%bool then Some (pad 10 2 level)
+  else if String.eqb layout "tms" then Some (dec_str level)
+  else if String.eqb layout "arcgis" then Some (76 :: pad 10 2 level)
+  else None.
+
 Section Paths.
   Variable lower : str -> str.
+
+  (* FileCache(cache_dir=root, directory_layout=layout).level_location(level, dimensions=dm); None where python raises *)
+  Definition file_level_location (layout : string) (root : str) (dm : dims) (level : Z) : option str :=
+    match level_name layout level with
+    | Some n => Some (posix_join root [dimensions_part lower dm; n])
+    | None => None
+    end.
 
   (* tile_location_<layout>(Tile((x, y, z)), cache_dir, file_ext, dimensions=dm) for a tile without location *)
   Definition tile_path (f : Z -> Z -> Z -> string -> list comp) (root : str) (dm : dims) (x y z : Z)
